@@ -4,6 +4,9 @@ pub mod c01;
 pub mod c03;
 pub mod c04;
 pub mod c06;
+pub mod c12;
+pub mod c17;
+pub mod c20;
 
 use crate::ast::Node;
 use crate::core::*;
@@ -23,6 +26,9 @@ pub fn run(ctx: &RunCtx) -> Outcome {
         "C04" => c04::run(ctx),
         "C05" => api::run_c05(ctx),
         "C06" => c06::run(ctx),
+        "C12" => c12::run(ctx),
+        "C17" => c17::run(ctx),
+        "C20" => c20::run(ctx),
         "C08" => api::run_c08(ctx),
         "C09" => api::run_c09(ctx),
         "C10" => api::run_c10(ctx),
@@ -47,6 +53,9 @@ pub fn replay(ctx: &RunCtx, case: &Value) -> Result<Option<Fail>, String> {
         }
         "C05" => replay_pat(ctx, &api::Safety, case),
         "C06" => c06::replay(ctx, case),
+        "C12" => c12::replay(ctx, case),
+        "C17" => c17::replay(ctx, case),
+        "C20" => c20::replay(ctx, case),
         "C08" => replay_pat(ctx, &api::IterModel, case),
         "C09" => replay_pat(ctx, &api::Coherence, case),
         "C10" => replay_pat(ctx, &api::SplitModel, case),
